@@ -6,6 +6,7 @@ import (
 	"math"
 	"math/big"
 	"reflect"
+	"sort"
 	"strconv"
 	"strings"
 	"time"
@@ -230,4 +231,86 @@ func goTypeTag(t reflect.Type) string {
 		return "tmapint"
 	}
 	return t.String()
+}
+
+// Snapshot renders everything reachable from v with its identity: addresses of pointers,
+// maps and slice backing arrays, and the exact contents of every number, so that an
+// in-place change of caller-owned data shows up as a different snapshot.
+func Snapshot(v interface{}) string {
+	var sb strings.Builder
+	snapshot(&sb, reflect.ValueOf(v), 0)
+	return sb.String()
+}
+
+func snapshot(sb *strings.Builder, rv reflect.Value, depth int) {
+	if depth > 12 {
+		sb.WriteString("<deep>")
+		return
+	}
+	if !rv.IsValid() {
+		sb.WriteString("nil")
+		return
+	}
+	if rv.CanInterface() {
+		switch x := rv.Interface().(type) {
+		case *decimal.Big:
+			if x == nil {
+				sb.WriteString("(*Big)nil")
+				return
+			}
+			form, neg, coef, exp := x.Decompose(nil)
+			fmt.Fprintf(sb, "Big@%p{%d %v %x %d ctx=%v}", x, form, neg, coef, exp, x.Context)
+			return
+		case time.Time:
+			fmt.Fprintf(sb, "time{%d %s}", x.UnixNano(), x.Location())
+			return
+		}
+	}
+	switch rv.Kind() {
+	case reflect.Interface:
+		if rv.IsNil() {
+			sb.WriteString("nil")
+			return
+		}
+		snapshot(sb, rv.Elem(), depth)
+	case reflect.Ptr:
+		if rv.IsNil() {
+			fmt.Fprintf(sb, "(%s)nil", rv.Type())
+			return
+		}
+		fmt.Fprintf(sb, "&@%x", rv.Pointer())
+		snapshot(sb, rv.Elem(), depth+1)
+	case reflect.Map:
+		fmt.Fprintf(sb, "map@%x{", rv.Pointer())
+		keys := rv.MapKeys()
+		sort.Slice(keys, func(i, j int) bool { return fmt.Sprint(keys[i].Interface()) < fmt.Sprint(keys[j].Interface()) })
+		for _, k := range keys {
+			fmt.Fprintf(sb, "%v:", k.Interface())
+			snapshot(sb, rv.MapIndex(k), depth+1)
+			sb.WriteByte(',')
+		}
+		sb.WriteByte('}')
+	case reflect.Slice:
+		fmt.Fprintf(sb, "slice@%x/%d[", rv.Pointer(), rv.Len())
+		for i := 0; i < rv.Len(); i++ {
+			snapshot(sb, rv.Index(i), depth+1)
+			sb.WriteByte(',')
+		}
+		sb.WriteByte(']')
+	case reflect.Struct:
+		sb.WriteString(rv.Type().String() + "{")
+		for i := 0; i < rv.NumField(); i++ {
+			if rv.Type().Field(i).IsExported() {
+				snapshot(sb, rv.Field(i), depth+1)
+			} else {
+				fmt.Fprintf(sb, "%v", rv.Field(i))
+			}
+			sb.WriteByte(',')
+		}
+		sb.WriteByte('}')
+	case reflect.Func:
+		fmt.Fprintf(sb, "func@%x", rv.Pointer())
+	default:
+		fmt.Fprintf(sb, "%s(%v)", rv.Kind(), rv)
+	}
 }
